@@ -174,8 +174,8 @@ func (c *Ctx) withMailboxClosures(withMailbox *ssa.Function) map[*ssa.Function]s
 func (c *Ctx) c09Mem(pm *pairModel) {
 	r, p := c.R, c.P
 	fBoxes := p.Field("pkg/storage/mem", "Store", "boxes")
-	fMutex := p.Field("pkg/storage/mem", "Store", "Mutex")
-	fMbMu := p.Field("pkg/storage/mem", "mbox", "RWMutex")
+	fMutex := p.MutexField("pkg/storage/mem", "Store")
+	fMbMu := p.MutexField("pkg/storage/mem", "mbox")
 	withMailbox := p.Method("pkg/storage/mem", "Store", "withMailbox")
 	mboxT := p.Named("pkg/storage/mem", "mbox")
 	if fBoxes == nil || fMutex == nil || fMbMu == nil || withMailbox == nil || mboxT == nil {
@@ -205,6 +205,42 @@ func (c *Ctx) c09Mem(pm *pairModel) {
 		})
 	}
 	r.Floor("C09/GUARD/mem", "accesses of Store.boxes", nBoxes, 1)
+	// (a') inserts: under the write lock, and in the same critical section as the lookup
+	// whose miss they act on
+	for _, fn := range fns {
+		fn := fn
+		var lookups []ssa.Instruction
+		eng.EachInstr(fn, func(in ssa.Instruction) {
+			if lk, ok := in.(*ssa.Lookup); ok && eng.SameField(eng.LoadedField(lk.X), fBoxes) {
+				lookups = append(lookups, in)
+			}
+		})
+		eng.EachInstr(fn, func(in ssa.Instruction) {
+			mu, ok := in.(*ssa.MapUpdate)
+			if !ok || !eng.SameField(eng.LoadedField(mu.Map), fBoxes) {
+				return
+			}
+			cons := "boxes-insert@" + shortFn(fn)
+			if !alwaysHeld(fn, in, storeOps, storeOps.isWriteAcq) {
+				r.Bad("C09/GUARD/mem", cons, p.InstrPos(in), "Store.boxes is written without the store mutex held for writing")
+				return
+			}
+			for _, lk := range lookups {
+				// a release on some path lookup → insert ?
+				relAt := (&eng.Search{
+					Target: func(x ssa.Instruction) bool {
+						return storeOps.isRel(x) && (&eng.Search{Target: func(y ssa.Instruction) bool { return y == in }}).After(x) != nil
+					},
+					Avoid: func(x ssa.Instruction) bool { return x == in },
+				}).After(lk)
+				if relAt != nil {
+					r.Bad("C09/GUARD/mem", cons, p.InstrPos(in), "the store mutex is released at %s between the lookup of the mailbox (%s) and the insert that acts on its miss: two first deliveries to one new mailbox each create an entry, one overwrites the other, and the mail filed in the lost entry vanishes (ids restart, too)", p.InstrPos(relAt), p.InstrPos(lk))
+					return
+				}
+			}
+			r.Ok("C09/GUARD/mem", cons, p.InstrPos(in), "insert under the write lock, in one critical section with the lookup (%d lookups)", len(lookups))
+		})
+	}
 	// (b) mbox fields
 	modes := c.withMailboxClosures(withMailbox)
 	st := mboxT.Underlying().(*types.Struct)
@@ -536,7 +572,7 @@ func (c *Ctx) c09NoBlock(pm *pairModel) {
 		}
 	}
 	// file: while a bucket lock is held no lock-taking function of the package is reachable
-	fMu := p.Field("pkg/storage/file", "mbox", "RWMutex")
+	fMu := p.MutexField("pkg/storage/file", "mbox")
 	if fMu == nil {
 		return
 	}
@@ -588,7 +624,7 @@ func (c *Ctx) c09NoBlock(pm *pairModel) {
 
 func (c *Ctx) c09File(pm *pairModel) {
 	r, p := c.R, c.P
-	fMu := p.Field("pkg/storage/file", "mbox", "RWMutex")
+	fMu := p.MutexField("pkg/storage/file", "mbox")
 	mboxT := p.Named("pkg/storage/file", "mbox")
 	storeT := p.Named("pkg/storage/file", "Store")
 	if fMu == nil || mboxT == nil || storeT == nil {
@@ -761,10 +797,10 @@ func (c *Ctx) c09File(pm *pairModel) {
 		}
 		var locks []lockOps
 		if rel == "pkg/storage/mem" {
-			if f := p.Field(rel, "Store", "Mutex"); f != nil {
+			if f := p.MutexField(rel, "Store"); f != nil {
 				locks = append(locks, opsFor(f))
 			}
-			if f := p.Field(rel, "mbox", "RWMutex"); f != nil {
+			if f := p.MutexField(rel, "mbox"); f != nil {
 				locks = append(locks, opsFor(f))
 			}
 		} else {
